@@ -1,6 +1,13 @@
 """C17 — curvilinear abscissa and speed features match their geometric definitions
 (tracklib/algo/cinematics.py computeAbsCurv / estimate_speed, algo/analytics.py ds / speed,
-core/operators.py Integrator)."""
+core/operators.py Integrator).
+
+Two kinds of cases:
+* single-track cases (`kind` enum / lattice-* / float* / pre-* / single): one fresh track, optional features present
+  beforehand, an op word over {a = computeAbsCurv, s = estimate_speed}; model `Model/Cinematics.lean` (driver `C17.run`);
+* world histories (`hist` present; generators and the oracle's bookkeeping in c17world.py): observations shared between
+  tracks, every entry point, in-place edits of positions and timestamp fields; model `Model/CinematicsTab.lean`
+  (driver `C17.world`). The oracle recomputes from the CURRENT positions and stamps after every operation."""
 import math, calendar, itertools, time as _time
 from fractions import Fraction
 from engine import Prop, fbits, bitsf, ratstr, parse_rat, tok_list, untok, close, err_kind
@@ -472,6 +479,9 @@ class P(Prop):
                 tr.setObsAnalyticalFeature(c, op[2], v)
             elif form == 2:
                 setattr(o.position, {"x": "E", "y": "N", "z": "U"}[c], v)
+            elif form == 3:               # a new coordinate object instead of an in-place change
+                p = o.position
+                o.position = self.ENU(v if c == "x" else p.E, v if c == "y" else p.N, v if c == "z" else p.U)
             else:
                 {"x": o.position.setX, "y": o.position.setY, "z": o.position.setZ}[c](v)
             return None
